@@ -68,11 +68,13 @@ func c19Scenarios(thorough bool) []*schedScenario {
 	// ADD): the loser of the handle race retries from its in-memory block and must not persist the
 	// allocation of its failed attempt; a third client makes the winner lose its block write.
 	maxauto := func(host, h string) vOp { return vOp{Kind: "auto", Host: host, Handle: h, MaxAlloc: 1} }
-	scs = append(scs, &schedScenario{Name: "maxalloc-same-handle-two-hosts", Cfg: c19Cfg(false),
-		Setup:   []vOp{auto("n1", "h0"), auto("n2", "h9")},
-		Threads: [][]vOp{{maxauto("n1", "H")}, {maxauto("n2", "H")}}})
 	if thorough {
 		scs = append(scs,
+			// (thorough only: the two clients can spin each other's retry loops, which the livelock
+			// guard caps; in the quick tier that would make every run report exhaustive:false)
+			&schedScenario{Name: "maxalloc-same-handle-two-hosts", Cfg: c19Cfg(false),
+				Setup:   []vOp{auto("n1", "h0"), auto("n2", "h9")},
+				Threads: [][]vOp{{maxauto("n1", "H")}, {maxauto("n2", "H")}}},
 			&schedScenario{Name: "maxalloc-same-handle-two-hosts-and-writer", Cfg: c19Cfg(false),
 				Setup:   []vOp{auto("n1", "h0"), auto("n2", "h9")},
 				Threads: [][]vOp{{maxauto("n1", "H")}, {maxauto("n2", "H")}, {auto("n1", "hx")}}},
